@@ -229,6 +229,28 @@ func judgeTimeout(c *sim.Case, r *sim.Result) (verdict, []string) {
 		return verdict{}, append(labels, "timeout-not-binding")
 	}
 	labels = append(labels, "timeout-fired")
+	// an attempt ended by the timeout is the step's last: the deadline is not a
+	// failure to retry
+	for _, s := range c.Steps {
+		st := an[s.Name]
+		if st == nil {
+			continue
+		}
+		for att, e := range st.ExitErr {
+			if e != "signal: killed" {
+				continue
+			}
+			x := st.ExitOf[att]
+			for _, cr := range st.Creates {
+				if cr > x {
+					return verdict{fmt.Sprintf("step %q: attempt %d was ended by the DAG timeout (seq %d), yet the step was launched again afterwards (executor created at seq %d; retryLimit %d)", s.Name, att, x, cr, s.RetryLimit), ""}, labels
+				}
+			}
+			if s.RetryLimit > 0 {
+				labels = append(labels, "timeout-hit-step-with-retries-left")
+			}
+		}
+	}
 	if r.Status == "finished" {
 		return verdict{"run hit its timeout with a step still executing but is reported finished", ""}, labels
 	}
@@ -332,6 +354,10 @@ func TestReplay(t *testing.T) {
 	cf, err := rep.LoadCase(p)
 	if err != nil {
 		t.Fatal(err)
+	}
+	if cf.Sub == "gap" {
+		replayGap(t, cf.Case)
+		return
 	}
 	if cf.Sub == "agent" {
 		replayAgentStop(t, cf.Case)
